@@ -105,6 +105,58 @@ TOKEN_IMPLS = ["<pasfmt_core::lang::Token as pasfmt_core::lang::TokenData>::get_
                "<pasfmt_core::lang::RawToken as pasfmt_core::lang::TokenData>::get_content", "<pasfmt_core::lang::RawToken as pasfmt_core::lang::TokenData>::get_leading_whitespace"]
 
 
+def consolidator_commits_atomically(prog, rep, R):
+    """The conditional-directive consolidator merges the directives written inside a statement into the statement's line and then voids
+    the directives' own lines (the tokens are laid out as part of the statement).  A directive whose line is voided although the merge
+    was abandoned belongs to no line any more: the wrapper never visits it and it keeps the line breaks it had in the input (zero or
+    ten blank lines, glued to the previous token or not).  In expand_line the list of merged directives therefore reaches the caller
+    only together with the replacement of the line's token list: a returned list that was pushed to is returned only behind that
+    store; pushes into a caller-owned list are taken back (truncate / clear) on every path that returns without the store."""
+    E = "pasfmt_core::rules::conditional_directive_consolidator::ConditionalDirectiveConsolidator::expand_line"
+    b = prog.body(E)
+    if not rep.check(b is not None, R, "anchor:expand_line", "ConditionalDirectiveConsolidator::expand_line not found"):
+        return
+    og = Origins(b)
+    S = {c.bb for c in b.calls() if (c.callee or "").endswith("LogicalLine::get_tokens_mut")}
+    if not rep.check(bool(S), R, "anchor:line-tokens-store", "expand_line no longer replaces the line's token list through get_tokens_mut()"):
+        return
+    pushes = [c for c in b.calls() if (c.callee or "").startswith("alloc::vec::Vec") and (c.callee or "").split("::")[-1] in ("push", "extend", "insert", "append", "extend_from_slice")]
+    pushed = {}
+    for c in pushes:
+        for o in og.of_operand(c.args[0]):
+            pushed.setdefault(o[:3], []).append(c)
+    # (i) a list that is returned
+    ret_sources = []
+    for bb, i, st in b.stmts():
+        if st["k"] == "assign" and st["dst"]["l"] == 0 and not st["dst"]["p"] and st["rv"]["k"] == "use":
+            ret_sources.append((bb, {o[:3] for o in og.of_operand(st["rv"]["op"])}))
+    for c in b.calls():
+        if c.t["dst"]["l"] == 0 and not c.t["dst"]["p"]:
+            ret_sources.append((c.bb, {("call", c.bb, c.callee)}))
+    n = 0
+    for blk, origs in ret_sources:
+        if not (origs & set(pushed)):
+            continue                      # a fresh, empty list
+        n += 1
+        ok = any(b.dominates(s2, blk) for s2 in S)
+        rep.check(ok, R, "merged-directives-returned-only-with-the-store", "expand_line returns the list of directives it has collected although the line's token list was not replaced on that path: "
+                  "the caller voids the lines of directives that were merged into nothing", where="%s:%d" % (b.file, b.line), instance={"return_site": "bb%d" % blk})
+    # (ii) a list owned by the caller
+    rets = set(b.return_blocks())
+    for key, cs in sorted(pushed.items(), key=str):
+        if key[0] != "param":
+            continue
+        n += 1
+        undo = {c.bb for c in b.calls() if (c.callee or "").startswith("alloc::vec::Vec") and (c.callee or "").split("::")[-1] in ("truncate", "clear", "drain", "set_len")
+                and any(o[:3] == key for o in og.of_operand(c.args[0]))}
+        leaks = [c for c in cs if b.can_reach_avoiding(c.bb, rets, S | undo)]
+        rep.check(not leaks, R, "pushes-into-the-callers-list-are-taken-back",
+                  "expand_line pushes directives into a list owned by its caller and can return without either replacing the line's token list or taking them back (truncate): the caller "
+                  "voids the lines of directives that were merged into nothing — they keep the line breaks of the input", where=leaks[0].where() if leaks else None,
+                  instance={"pushes": len(cs), "leaking": len(leaks)})
+    rep.floor(R, "directive lists of expand_line that reach the caller", n, 1)
+
+
 OLF_SEARCH = "pasfmt_core::rules::optimising_line_formatter::InternalOptimisingLineFormatter::find_optimal_solution"
 # how often the search (find_optimal_solution, its closures and private helpers called only from it) constructs each give-up value
 GIVE_UP_SITES = {
@@ -151,6 +203,7 @@ def wrapper_gives_up_only_at_reviewed_sites(prog, rep, R):
 
 def check_c06(prog, rep, tier, cfg):
     wrapper_gives_up_only_at_reviewed_sites(prog, rep, "C06.i")
+    consolidator_commits_atomically(prog, rep, "C06.j")
     R = "C06.a"
     ws_callers = set()
     for nm in ("get_leading_whitespace",):
@@ -942,6 +995,7 @@ def check_c08(prog, rep, tier, cfg):
     # a gap nobody decides keeps the input's blank count: more than one space between two tokens on a line
     gap_coverage(prog, rep, "C08.e")
     children_of_voided_lines_are_laid_out(prog, rep, "C08.f")
+    consolidator_commits_atomically(prog, rep, "C08.i")
     # C08.g — every blank of the input is scanned as leading whitespace (and so replaced by the decided counters): the scanner's blank
     # set is {<= U+0020, U+3000} and it stops only in front of a non-blank; a blank that is left over becomes an `Unknown` token and
     # is emitted as it is (shared with C13.b / C01.e)
